@@ -190,6 +190,27 @@ theorem remove_is_bl (conv : Bytes → Option Bytes) (items : List Item) (annexb
     (general { cfgDemux false with annexb := annexb, convSet := convSet, drop := drop } conv items).map (·.bl) :=
   run_bl_indep_el { cfgRemove with annexb := annexb, convSet := convSet, drop := drop } false true conv {} items
 
+/-! ## the read schedule below the NAL list -/
+
+/-- The single dependence of convert / demux / remove on the read schedule (found by the correspondence check):
+when the first read chunk holds only one start code, the first NAL of the stream is not recognised as such
+(`generalFrom true`).  Every output then still holds **the same NALs with the same bytes** — only the length of
+that NAL's start code under `--start-code annex-b` can differ (3 instead of 4 bytes when its type is not
+AUD / VPS / SPS / PPS / UNSPEC62). -/
+theorem late_first_nal_same_bytes (c : Cfg) (conv : Bytes → Option Bytes) (items : List Item) (late : Bool) :
+    (generalFrom late c conv items).map payS = (general c conv items).map payS :=
+  run_pay_indep c conv _ _ items rfl
+
+/-- … and with the default preset (4-byte start codes everywhere) or a four-sized first NAL, nothing differs:
+here for the preset -/
+example : (generalFrom true cfgConvert (fun _ => none) [⟨39, [0x4E, 1, 5, 1, 7, 0x80], 0⟩, ⟨19, [0x26, 1, 0xAA], 0⟩]) =
+    general cfgConvert (fun _ => none) [⟨39, [0x4E, 1, 5, 1, 7, 0x80], 0⟩, ⟨19, [0x26, 1, 0xAA], 0⟩] := by decide
+
+/-- the difference, when there is one -/
+example : ((generalFrom true { cfgConvert with annexb := true } (fun _ => none) [⟨39, [0x4E, 1, 5, 1, 7, 0x80], 0⟩]).map (fun s => s.sl.map (·.sc)),
+           (general { cfgConvert with annexb := true } (fun _ => none) [⟨39, [0x4E, 1, 5, 1, 7, 0x80], 0⟩]).map (fun s => s.sl.map (·.sc)))
+    = (some [3], some [4]) := by decide
+
 /-! ## non-vacuity: one stream through the three commands -/
 
 def exItems : List Item :=
